@@ -116,7 +116,12 @@ def apply_op(ctx, op, history_conventions, whole_case):
                                ("parameter descriptions", {n: (q.short_description, q.long_description) for n, q in d.parameters.items()},
                                 {n: (q.short_description, q.long_description) for n, q in plain.parameters.items()}),
                                ("container descriptions", {n: (c.short_description, c.long_description) for n, c in d.containers.items()},
-                                {n: (c.short_description, c.long_description) for n, c in plain.containers.items()})):
+                                {n: (c.short_description, c.long_description) for n, c in plain.containers.items()}),
+                               ("the orders of containers, parameters and inheritors",
+                                {"containers": list(d.containers), "parameters": list(d.parameters),
+                                 **{"inheritors of " + n: list(c.inheritors) for n, c in d.containers.items()}},
+                                {"containers": list(plain.containers), "parameters": list(plain.parameters),
+                                 **{"inheritors of " + n: list(c.inheritors) for n, c in plain.containers.items()}})):
                 if a != b:
                     diffs = {n: (a.get(n), b.get(n)) for n in a if a.get(n) != b.get(n)}
                     return ("noise-changes-definition", f"{what} differ between a rendering with comments/whitespace and "
